@@ -100,8 +100,12 @@ static int line_to_instr(struct instr *instr_data, char *filtered_asm_str) {
       return EXIT_FAILURE;
     }
   }
-  // find the encoding for a short jump instruction if applicable
-  instr_data->key += instr_data->keyword.is_short;
+  // find the encoding for a short jump instruction if applicable (call and
+  // xbegin have no rel8 form: their next table row is not a short encoding)
+  if (instr_data->keyword.is_short &&
+      INSTR_TABLE[instr_data->key + 1].encode_operand == S &&
+      INSTR_TABLE[instr_data->key + 1].name == INSTR_TABLE[instr_data->key].name)
+    instr_data->key++;
   // values will be determined during encoding
   instr_data->hex.reg = NONE;
   instr_data->hex.rex = NONE;
